@@ -580,4 +580,36 @@ MUTANTS += [
      "desc": "next point = previous scheduled point + ONE interval even when the record is several intervals late (burst of rotations after a gap)",
      "old": "return scheduled_rotation_tp_ns + ((elapsed_intervals + 1) * interval_ns);",
      "new": "return scheduled_rotation_tp_ns + interval_ns;"},
+    # ---------------- third session: file-backed sinks (C06, fileflush) and CsvWriter (C17, csvw) ----------------
+    {"id": "c06-suppressed-statement-clears-dirty-flag", "props": ["C06"], "file": "quill/sinks/StreamSink.h",
+     "desc": "a statement suppressed by the before_write hook clears the sink's dirty flag (seeded change C06-5)",
+     "old": """      safe_fwrite(user_log_statement.data(), sizeof(char), user_log_statement.size(), _file);
+    }""",
+     "new": """      safe_fwrite(user_log_statement.data(), sizeof(char), user_log_statement.size(), _file);
+      _write_occurred = !user_log_statement.empty();
+      return;
+    }"""},
+    {"id": "c06-write-never-marks-dirty", "props": ["C06"], "file": "quill/sinks/StreamSink.h",
+     "desc": "StreamSink::write_log never sets the dirty flag: flush_sink() always returns early",
+     "old": """    _write_occurred = true;
+  }""",
+     "new": """  }"""},
+    {"id": "c17-csv-destructor-nonblocking", "props": ["C17"], "file": "quill/CsvWriter.h",
+     "desc": "~CsvWriter removes its logger without waiting (remove_logger instead of remove_logger_blocking)",
+     "old": "~CsvWriter() { frontend_t::remove_logger_blocking(_logger); }",
+     "new": "~CsvWriter() { frontend_t::remove_logger(_logger); }"},
+    {"id": "c17-csv-append-header-twice", "props": ["C17"], "file": "quill/CsvWriter.h",
+     "desc": "CsvWriter in append mode writes the header although the file exists",
+     "old": "    if ((open_mode == 'a') && fs::exists(filename))",
+     "new": "    if ((open_mode == 'a') && !fs::exists(filename))"},
+    {"id": "c09-throw-above-configured-capacity", "props": ["C09"], "file": "quill/Logger.h",
+     "desc": "a blocked statement larger than the CONFIGURED bounded capacity throws instead of waiting (seeded change C09-5, condensed)",
+     "old": """    if constexpr ((frontend_options_t::queue_type == QueueType::BoundedDropping) ||
+                  (frontend_options_t::queue_type == QueueType::UnboundedDropping))""",
+     "new": """    if constexpr (frontend_options_t::queue_type == QueueType::BoundedBlocking)
+    {
+      if ((write_buffer == nullptr) && (total_size > frontend_options_t::initial_queue_capacity)) { QUILL_THROW(QuillError{"statement larger than the queue"}); }
+    }
+    if constexpr ((frontend_options_t::queue_type == QueueType::BoundedDropping) ||
+                  (frontend_options_t::queue_type == QueueType::UnboundedDropping))"""},
 ]
